@@ -10,7 +10,9 @@ search : (TESTING, labelled so) the real expanders, through the in-process harne
          one thread (harness cmd expand_seq - the proc-macro server expands a crate's derives on one thread), 3 orders
          of the whole corpus, (c) histories that differ in SIZE: small items of every hash-iterating expander alone (own
          process) vs after much larger items of the same / of other derives, twice, and after a different item of the
-         same name; comparison of the emitted token strings.
+         same name, (d) NAME-COLLISION histories for every derive: two items spelling the same type tokens in the same
+         fields under the same name, the identifier a type parameter in one and a concrete type in the other, each
+         expanded before / after its partner and on a fresh thread; comparison of the emitted token strings.
 control: the same keys collected into the crate's alias set and into a std RandomState set (harness cmd hash_probe):
          the first must agree everywhere, the second is expected to differ (shows the search can see a violation).
 """
@@ -123,11 +125,12 @@ def gen_mul(rng, k, derive):
     used = [p for p in params if any(p in t for t in tys)]
     phantom = ""
     gen = "<%s>" % ", ".join(used) if used else ""
+    tc = "," if k % 2 == 0 else ""          # with and without a trailing comma after the last field
     if rng.random() < 0.5:
-        body = "{ %s }" % ", ".join("f%d: %s" % (q, t) for q, t in enumerate(tys))
+        body = "{ %s%s }" % (", ".join("f%d: %s" % (q, t) for q, t in enumerate(tys)), tc)
         item = "struct M%d%s %s" % (k, gen, body)
     else:
-        item = "struct M%d%s(%s);" % (k, gen, ", ".join(tys))
+        item = "struct M%d%s(%s%s);" % (k, gen, ", ".join(tys), tc)
     return derive, item + phantom, len(set(tys))
 
 
@@ -176,7 +179,9 @@ def gen_small(rng, mech, k):
             "V%d { source: %s }" % (i, p) for i, p in enumerate(ps))), len(ps)
     ps = ["A", "B", "C", "D", "E"][:rng.randrange(2, 6)]
     d = rng.choice(MUL_LIKE if mech == "mul_like" else MUL_ASSIGN_LIKE)
-    return d, "struct %s<%s>(%s);" % (nm, ", ".join(ps), ", ".join(ps)), len(ps)
+    if k % 3 == 0:
+        return d, "struct %s<%s> { %s }" % (nm, ", ".join(ps), ", ".join("f%d: %s" % (i, q) for i, q in enumerate(ps))), len(ps)
+    return d, "struct %s<%s>(%s%s);" % (nm, ", ".join(ps), ", ".join(ps), "," if k % 2 else ""), len(ps)
 
 
 def gen_big(rng, mech, k, n):
@@ -197,6 +202,103 @@ def gen_big(rng, mech, k, n):
 
 
 MECHS = ["from_str", "try_into", "error", "mul_like", "mul_assign_like"]
+
+SPELLINGS = ["%s", "Box<%s>", "&'static %s", "Vec<%s>", "Option<%s>", "Wrap<%s>", "(%s, u8)", "[%s; 2]",
+             "::std::sync::Arc<%s>", "Pair<u8, %s>", "fn(%s) -> u8", "*const %s", "<%s as Tr>::Out", "%s::Assoc"]
+IDENTS = ["Cause", "Inner", "T", "Item", "Source", "Payload"]
+# derives whose expansion consults the item's type parameters (bounds / where-clauses / blanket-impl decisions)
+TYPE_PARAM_DERIVES = {"Error", "Display", "Debug", "Binary", "Octal", "LowerHex", "UpperHex", "LowerExp", "UpperExp",
+                      "Pointer", "From", "Into", "AsRef", "AsMut", "TryInto"}
+
+
+def collision_shapes(derive, attr, name, ident, ty, generic):
+    """items of `derive` whose field types spell `ty` (which mentions `ident`); `ident` is a type parameter of the
+    item iff `generic` - everything else (item name, field names, type tokens) is identical"""
+    g = "<%s>" % ident if generic else ""
+    out = []
+    if derive == "Error":
+        out.append("struct %s%s { source: %s }" % (name, g, ty))
+        out.append("struct %s%s { source: %s, code: u8, }" % (name, g, ty))
+        out.append("enum %s%s { A { source: %s }, B(%s), C }" % (name, g, ty, ty))
+        out.append("struct %s%s(#[error(source)] %s, u8);" % (name, g, ty))
+        return out
+    if derive in ("Display", "Binary", "Octal", "LowerHex", "UpperHex", "LowerExp", "UpperExp", "Pointer"):
+        a = attr or "display"
+        out.append("struct %s%s(%s);" % (name, g, ty))
+        out.append('#[%s("{field}")] struct %s%s { field: %s }' % (a, name, g, ty))
+        out.append('#[%s("{_0} {_1:?}")] struct %s%s(%s, %s);' % (a, name, g, ty, ty))
+        out.append('enum %s%s { #[%s("{_0}")] A(%s), #[%s("b")] B }' % (name, g, a, ty, a))
+        return out
+    if derive == "Debug":
+        out.append("struct %s%s { field: %s }" % (name, g, ty))
+        out.append("struct %s%s(%s, u8,);" % (name, g, ty))
+        out.append('struct %s%s { #[debug("{field:?}")] field: %s, #[debug(skip)] other: %s }' % (name, g, ty, ty))
+        out.append("enum %s%s { A(%s), B { field: %s } }" % (name, g, ty, ty))
+        return out
+    if derive in ("AsRef", "AsMut"):
+        a = attr or "as_ref"
+        out.append("struct %s%s(%s);" % (name, g, ty))
+        out.append("#[%s(forward)] struct %s%s(%s);" % (a, name, g, ty))
+        out.append("#[%s(%s)] struct %s%s(%s);" % (a, ty, name, g, ty))
+        out.append("struct %s%s { #[%s(%s, u8)] field: %s, other: u8 }" % (name, g, a, ty, ty))
+        return out
+    if derive in ("From", "Into"):
+        a = attr or derive.lower()
+        out.append("struct %s%s(%s);" % (name, g, ty))
+        out.append("#[%s(forward)] struct %s%s(%s);" % (a, name, g, ty))
+        out.append("struct %s%s { field: %s, other: u8 }" % (name, g, ty))
+        out.append("#[%s(%s)] struct %s%s(%s);" % (a, ty, name, g, ty))
+        if derive == "From":
+            out.append("enum %s%s { A(%s), B(u8) }" % (name, g, ty))
+        else:
+            out.append("#[into(owned, ref, ref_mut)] struct %s%s(%s);" % (name, g, ty))
+        return out
+    if derive in ("TryInto", "Unwrap", "TryUnwrap", "IsVariant", "TryFrom"):
+        out.append("enum %s%s { A(%s), B(u8), C(%s, u8) }" % (name, g, ty, ty))
+        out.append("enum %s%s { A { field: %s }, B }" % (name, g, ty))
+        return out
+    # every other derive (Mul-like, MulAssign-like, Add-like, Not, Sum, Deref, Index, IntoIterator, Constructor, FromStr ...)
+    out.append("struct %s%s(%s);" % (name, g, ty))
+    out.append("struct %s%s { field: %s, other: %s }" % (name, g, ty, ty))
+    out.append("struct %s%s { field: %s, other: u8, }" % (name, g, ty))
+    out.append("struct %s%s(%s, u8);" % (name, g, ty))
+    out.append("enum %s%s { A(%s), B { field: %s } }" % (name, g, ty, ty))
+    if attr:
+        out.append("#[%s(forward)] struct %s%s(%s);" % (attr, name, g, ty))
+    return out
+
+
+def collision_pairs(rng, table, attrs, n_spellings):
+    """[(class, derive, generic item, concrete item)] - the two items of a pair differ ONLY in whether the identifier
+    is declared as a type parameter"""
+    pairs = []
+    k = 0
+    for derive, feature in table:
+        cls = {"Error": "error", "FromStr": "from_str", "TryInto": "try_into"}.get(derive) or (
+            "mul_like" if derive in MUL_LIKE else "mul_assign_like" if derive in MUL_ASSIGN_LIKE else feature)
+        sensitive = derive in TYPE_PARAM_DERIVES or derive in MUL_LIKE or derive in MUL_ASSIGN_LIKE
+        for sp in rng.sample(SPELLINGS, max(n_spellings, 8) if sensitive else n_spellings):
+            ident = "%s%d" % (rng.choice(IDENTS), k)
+            ty = sp % ident
+            name = "Nc%d" % k
+            ga = collision_shapes(derive, attrs.get(derive), name, ident, ty, True)
+            ca = collision_shapes(derive, attrs.get(derive), name, ident, ty, False)
+            q = rng.randrange(len(ga))
+            pairs.append((cls, derive, ga[q], ca[q]))
+            k += 1
+    return pairs
+
+
+def derive_attr_names():
+    """derive name -> its first helper attribute, from the create_derive! table of impl/src/lib.rs"""
+    import re
+    src = open(os.path.join(common.REPO, "impl", "src", "lib.rs")).read()
+    out = {}
+    for m in re.finditer(r"create_derive!\(([^;]*?)\);", src, re.S):
+        args = [a.strip() for a in m.group(1).replace("\n", " ").split(",") if a.strip()]
+        if len(args) >= 4 and args[0].startswith('"'):
+            out[args[2]] = args[4] if len(args) > 4 else None
+    return out
 
 
 def run_seq(binary, seq, env, cwd, timeout=600):
@@ -582,6 +684,48 @@ def run(tier, seed, replay):
                                "history": hname, "position": pos,
                                "preceding": [{"derive": x, "item": y} for x, y in seq[:pos]][-8:]},
                               "derive(%s) on `%s` expands differently alone and %s" % (d, it[:160], hname.split(": ", 1)[-1]))
+    # (d) NAME-COLLISION histories: for every derive, pairs of items that spell the same type tokens in the same fields
+    #     under the same item name, the identifier being a type parameter in one and a concrete type in the other;
+    #     each item is expanded with its partner BEFORE it and AFTER it (one thread), and on a fresh thread
+    n_coll = 0
+    if not replay:
+        attrs = derive_attr_names()
+        pairs = collision_pairs(rng, [(d, f) for d, f in table], attrs, 3 if tier == "quick" and not widen else 10)
+
+        def rq(d, it):
+            return {"derive": d, "item": it, "summary": False}
+        seq1, seq2 = [], []
+        for (cls, d, gi, ci) in pairs:
+            seq1 += [rq(d, gi), rq(d, ci)]
+            seq2 += [rq(d, ci), rq(d, gi)]
+        run1 = run_seq(binary, seq1, envs[0]["env"], envs[0]["cwd"])
+        run2 = run_seq(binary, seq2, envs[0]["env"], envs[0]["cwd"])
+        run3 = [parsed(l) for l in run_process(binary, [dict(x, cmd="expand") for x in seq2], envs[0]["env"], envs[0]["cwd"])[0]]
+        if run1 is None or run2 is None or len(run1) != len(seq1) or len(run2) != len(seq2) or len(run3) != len(seq2):
+            chk.violation("harness-crash", {"stage": "name-collision"}, "the name-collision history runs did not complete")
+        else:
+            for k, (cls, d, gi, ci) in enumerate(pairs):
+                outs = {"generic": (gi, ci, run1[2 * k], run2[2 * k + 1], run3[2 * k + 1]),
+                        "concrete": (ci, gi, run1[2 * k + 1], run2[2 * k], run3[2 * k])}
+                chk.bump("collision:" + cls)
+                for which, (it, partner, o1, o2, o3) in outs.items():
+                    n_cmp += 2
+                    n_coll += 1
+                    chk.count((d, it, "collision"), "ok" in o3)
+                    if o1 == o2 == o3:
+                        continue
+                    # confirm on the minimal history: [partner, item] in a fresh process vs item alone
+                    a = alone(d, it)
+                    after = run_seq(binary, [rq(d, partner), rq(d, it)], envs[0]["env"], envs[0]["cwd"])
+                    minimal = after is not None and after[1] != a
+                    chk.violation("nondeterministic-across-histories:" + cls,
+                                  {"derive": d, "item": it, "output_a": json.dumps(a),
+                                   "output_b": json.dumps(after[1] if minimal else (o1 if o1 != o3 else o2)),
+                                   "history": "name collision: the same type tokens, the identifier is a type parameter in "
+                                              "one item and a concrete type in the other (this item is the %s one)" % which,
+                                   "preceding": [{"derive": d, "item": partner}],
+                                   "minimal_history_reproduces": minimal},
+                                  "derive(%s) on `%s` expands differently alone and after `%s`" % (d, it[:140], partner[:140]))
     chk.cov["traces_validated_against_impl"] = n_cmp
     for j, (d, it, g, mech) in enumerate(cases):
         if mech != "other" and g >= 4 and kinds.get(j) == "ok":
@@ -599,7 +743,7 @@ def run(tier, seed, replay):
     extra = {"search_is_testing": True,
              "aslr_randomize_va_space": aslr,
              "environments": [e["desc"] for e in envs],
-             "orders": list(orders), "size_history_comparisons": n_hist,
+             "orders": list(orders), "size_history_comparisons": n_hist, "name_collision_comparisons": n_coll,
              "histories": sorted(set(h[0].split(": ", 1)[-1] for h in hist_plan)),
              "controls": {"alias_orders_seen": len(alias_orders), "random_state_orders_seen": len(random_orders),
                           "translator_mutations": [{"mutation": n, "facts_ok": v} for n, v in controls]}}
@@ -615,6 +759,8 @@ def run(tier, seed, replay):
              "expanded in 8 fresh processes (environment/cwd/ASLR varied) and in 3 orders within one process and thread; small "
              "items (2-6 entries) of each hash-iterating expander are additionally expanded alone vs after 12/40/150-entry "
              "items of the same derive, after 30-60-entry items of the other derives, twice, and after a same-named item; "
+             "for every derive x 3 (quick) / 10 type spellings a generic/concrete pair of otherwise identical items is expanded "
+             "in both orders on one thread and on fresh threads; Mul-like items come with and without a trailing comma; "
              "non-trivial = the iterated collection has >= 2 entries and the expansion succeeds; distinct by (derive, item)",
         trusted=TRUSTED, extra=extra)
 
